@@ -38,6 +38,13 @@ Theorem C34_model_run_meets_spec : forall ops,
 Proof. exact model_run_meets_spec. Qed.
 Print Assumptions C34_model_run_meets_spec.
 
+(* Central statement over the wire functions: for every well-formed input (wf_C34: a live script, or scheduler
+   operations within wf_sop) the property predicate the harness evaluates on the implementation's observation
+   holds of the model's own output. *)
+Theorem C34_prop_of_model : forall i, wf_C34 i = true -> prop_C34 i (run_C34 i) = true.
+Proof. exact prop_C34_of_model. Qed.
+Print Assumptions C34_prop_of_model.
+
 (* Step form: a non-empty DATA frame returned by take (any choice c) is no longer than the stream window, the
    connection window and maxFrameSize of the state it is taken from, and both windows shrink by exactly its
    length (no int32 wrap). *)
